@@ -25,6 +25,8 @@ def preds_from_tlc(prop):
 
 
 def run(prop, tier, replay):
+    if replay:
+        return Q.replay(prop, replay, {"ScanEqualsEval", "CountEqualsEval"} if prop == "C16" else {"IndexedScanEqualsEval", "IndexedCountEqualsEval"}, trace_module="Trace_LanceTable")
     t0 = time.time()
     out = vlib.Outcome(prop)
     mc = vlib.tlc_mc(f"{prop}-tq", "TableQuery", Q.TQ_CFG.format(steps=1, inv=Q.LAWS, props=Q.LAW_PROPS), workers=8, timeout=3000)
